@@ -3,8 +3,8 @@ import collections
 from .. import lib, e2e
 
 PROP = "C01"
-THEOREMS = []
-IMPORTS = ["SocVerif.Props.C06", "SocVerif.Props.C07"]
+THEOREMS = ["E2E.csr_route_eq_locate", "E2E.csr_items_ok", "E2E.route_eq_locate", "E2E.root_map_ok", "E2E.route_agrees_with_decode", "E2E.unassigned_reaches_nothing"]
+IMPORTS = ["SocVerif.Props.C01"]
 
 
 def _one(seed, idx):
@@ -19,6 +19,21 @@ def run(rep, tier):
     errs = [r for r in res if "harness_error" in r]
     if errs:
         raise lib.Infra("harness error: " + errs[0]["harness_error"] + errs[0].get("tb", ""))
+    # ---- correspondence of the Lean routing model (hardware address path) with the real root memory map
+    lines = [l for r in res for l in r["lines"]]
+    outs = lib.split_cases(lib.run_driver("e2e", lines))
+    diffs = 0
+    for r, model in zip(res, outs):
+        r["idx"] = res.index(r)
+        if model != r["obs"]:
+            diffs += 1
+            a = next((k for k, (x, y) in enumerate(zip(model[0].split()[1:], r["obs"][0].split()[1:])) if x != y), None)
+            if not r["fails"]:
+                rep.violation({"kind": "correspondence", "model": "e2e", "hierarchy": r["descr"], "protocol_lines": r["lines"],
+                               "first_diff": {"root_address": a, "model": model[0].split()[1:][a] if a is not None else None,
+                                              "real_map": r["obs"][0].split()[1:][a] if a is not None else None}}, False,
+                              f"C01: Lean routing model and the real root memory map disagree at root address {a}; the end-to-end "
+                              f"experiments found no failing access in this hierarchy")
     tot = collections.Counter()
     reported = 0
     for r in res:
@@ -39,7 +54,7 @@ def run(rep, tier):
                       "C01: unassigned address inside a bridge window is acknowledged")
     rep.coverage.update({
         "evaluations": tot["addresses"], "distinct_nontrivial": tot["reg_txns"] + tot["sram_probes"],
-        "hierarchies": n, "distribution": dict(tot),
+        "hierarchies": n, "distribution": dict(tot), "traces_validated_against_impl": n - diffs, "correspondence_diffs": diffs,
         "samples": [{"hierarchy": r["descr"][:400], "stats": r["stats"]} for r in res[:3]],
         "rule": ("generated hierarchies (wishbone.Decoder over WishboneSRAMs and WishboneCSRBridges over nested csr.Decoders over "
                  "csr.Multiplexer / csr.Bridge / csr.EventMonitor / gpio.Peripheral; ratios 1/2/4, alignments, implicit and "
